@@ -57,9 +57,20 @@ variable {n m : Nat}
 @[inline] def ofFn (f : Fin n → K) : Vec K n := Vector.ofFn f
 @[inline] def const (n : Nat) (a : K) : Vec K n := Vector.replicate n a
 
-/-- infinity norm, `v.lpNorm<Eigen::Infinity>()`; `0` for an empty vector. -/
+/-- infinity norm, `v.lpNorm<Eigen::Infinity>()` = `cwiseAbs().maxCoeff()`: the reduction starts from the
+    first element (this matters only for unordered values such as NaN/poison); `0` for an empty vector. -/
 def infNorm [LT K] [DecidableLT K] [Neg K] [Zero K] (v : Vec K n) : K :=
-  maxFin 0 n (fun i => vabs v[i])
+  if h : 0 < n then
+    let init := vabs v[0]
+    maxFin init n (fun i => if i.val = 0 then init else vabs v[i])
+  else 0
+
+/-- `v.head(cnt).lpNorm<Eigen::Infinity>()` -/
+def headInfNorm [LT K] [DecidableLT K] [Neg K] [Zero K] (cnt : Nat) (v : Vec K n) : K :=
+  if h : 0 < n ∧ 0 < cnt then
+    let init := vabs (v[0]'h.1)
+    maxFin init n (fun i => if i.val = 0 ∨ cnt ≤ i.val then init else vabs v[i])
+  else 0
 
 def dot [Add K] [Mul K] [Zero K] (a b : Vec K n) : K := sumFin n (fun i => a[i] * b[i])
 def sum [Add K] [Zero K] (a : Vec K n) : K := sumFin n (fun i => a[i])
